@@ -37,7 +37,23 @@ def main():
         sys.exit(1 if bad else 0)
     if a.tier not in ("quick", "thorough"):
         a.tier = "quick"
-    mod = importlib.import_module("props." + a.pid.lower())
+    try:
+        mod = importlib.import_module("props." + a.pid.lower())
+    except Exception as e:  # noqa: the implementation (or the module's set-up against it) does not even load
+        import traceback
+        os.makedirs(core.REPLAYS, exist_ok=True)
+        path = os.path.join(core.REPLAYS, f"{a.pid}-load-{a.seed}.json")
+        json.dump({"property": a.pid, "kind": "no-failing-input-found",
+                   "what": "the property module could not be loaded against the tree under test, so neither the "
+                           "correspondence nor the property could be checked",
+                   "proof_failures": ["load failure: " + "".join(traceback.format_exception(type(e), e, e.__traceback__))[-1500:]],
+                   "broken_correspondence": []}, open(path, "w"), indent=1)
+        json.dump({"property_id": a.pid, "tier": a.tier, "seed": a.seed, "level": "proof",
+                   "coverage": {"obligations": 1, "discharged": 0, "checker_cmd": "(not reached)", "trusted_base": [],
+                                "evaluations": 0, "distinct_nontrivial": 0, "explanation": "property module failed to load"},
+                   "wall_s": 0.0, "violations": 1}, open(os.path.join(core.EVID, a.pid + ".json"), "w"), indent=1)
+        print(f"VIOLATION property={a.pid} replay={path} no-failing-input-found")
+        sys.exit(1)
     sys.exit(core.Engine(mod, a.tier, a.seed).run())
 
 
